@@ -447,6 +447,8 @@ print("TERMINATE_S", time.monotonic() - t0)
             d = tempfile.mkdtemp(prefix="verif-c09-")
             out = os.path.join(d, "ran.txt")
             env = core.child_env({"EXECNET_DEBUG": "2"})
+            if i % 2:
+                env["EXECNET_VERIF"] = "noise:%d:0.03:5" % i  # schedule noise in initiator and worker alike
             p = subprocess.run([core.PY, "-c", script, out, model], env=env, capture_output=True, timeout=120)
             txt = p.stdout.decode()
             err = p.stderr.decode()
